@@ -1,6 +1,6 @@
 import SlimModel.Readers
 import SlimProofs.ReadersLemmas
-import SlimProps.Bridge
+import SlimProps.Bridge.C11
 /-
   Property C11 — a SlimTrie is safely shareable between concurrent readers.
 
